@@ -97,8 +97,8 @@ pub fn c06() -> Simple {
         id: "C06",
         decided_by: "inputs (values x row layouts); schedule axis orthogonal (chunking, short writes)",
         rule_text: "one run = 1..3 text resultsets of 1..8 columns x 0..6 rows with cells from per-type generators (all ten integer types at range edges/powers of two, finite f32/f64 incl. subnormals and -0.0, byte/str data across length classes incl. 0x00/0xFB/0xFF/'NULL', dates in years 0..9999, datetimes/durations with and without microseconds, Option, every generic Value variant); oracle: independent text-row decoder, cell decoded by the written Rust type and compared exactly, NULL <=> 0xFB. Distinct = plan signature (cell kinds and size classes per position).",
-        quick: 600_000,
-        thorough: 10_000_000,
+        quick: 400_000,
+        thorough: 8_000_000,
         budget_q: 60,
         budget_t: 600,
         owns: &["text-value", "resp-malformed", "resp-shape", "api-call-failed", "panic", "end", "resp-missing", "decode-myc"],
@@ -934,11 +934,18 @@ impl Check for C13 {
     }
     fn jobs(&self, tier: Tier) -> u64 {
         match tier {
-            Tier::Quick => 2_000_000,
-            Tier::Thorough => 30_000_000,
+            Tier::Quick => 1_200_000,
+            Tier::Thorough => 20_000_000,
         }
     }
     fn run_job(&self, rng: &mut Rng, _tier: Tier, job: u64, ctx: &mut JobCtx<'_>) {
+        if job % 8 == 7 {
+            // errors reported inside the all-features conversation (TLS, pipelining, faults, ...)
+            let plan = super::sink::gen_sink(rng, _tier, job);
+            ctx.stats.bump("probe.kitchen_sink_runs", 1);
+            ctx.eval(&plan);
+            return;
+        }
         let kinds = crate::kinds::KINDS;
         let kind = kinds[(job % kinds.len() as u64) as usize].1;
         let plan = gen_c13_plan(rng, kind);
@@ -1094,8 +1101,8 @@ pub fn c14() -> Simple {
         id: "C14",
         decided_by: "inputs (u64 pairs at lenenc cliffs, row counts) x program position",
         rule_text: "one run = 1..3 commands (text and binary) each answered by 1..4 chained completions with (affected_rows, last_insert_id) drawn around 0, 250/251, 2^16, 2^24, 2^64-1 and uniformly, or by zero-column resultsets with 0..1040 ended rows (write_row / end_row, last row ended or not, finish / finish_one / drop); oracle: decoded OK counts equal the given values, zero-column OK carries the number of ended rows, more-results flag on all but the last. Distinct = plan signature.",
-        quick: 800_000,
-        thorough: 12_000_000,
+        quick: 500_000,
+        thorough: 10_000_000,
         budget_q: 60,
         budget_t: 600,
         owns: &["ok-counts", "resp-more-flag", "resp-shape", "resp-malformed", "resp-missing", "api-call-failed", "panic", "end", "decode-myc"],
